@@ -36,6 +36,8 @@ CLAUSES = [
     G.P({"d": "s", "t": "${d}-${d}", "u": "${d}${d}${d}"}),                                     # pieces of a string
     G.P({"sel": "k", "d": {"k": "v"}, "t": ["${d:${sel}}", "${d:${sel}}"], "u": "${d:${sel}}${d:${sel}}"}),
     G.P({"p": {"t": "${d}"}, "d": {"k": 1}}, {"p": {"t": "${d}"}}, {"u": "${p:t:k}"}),
+    G.P({"cluster": "prod", "prod": {"label": "${cluster}"}, "settings": "${${cluster}}"}),      # whole path is one nested reference
+    G.P({"sel": "tgt", "tgt": ["${sel}"], "t": "${${sel}}", "u": "x${${sel}}"}),
     chain(10), chain(62), chain(63), chain(64), chain(65), chain(66),
     G.P(dict([("c%d" % i, "p${c%d}" % (i + 1)) for i in range(64)] + [("c64", "e")])),
 ]
